@@ -82,6 +82,10 @@ func c07Scenarios(thorough bool) []pwScenario {
 		empty.Pre = nil
 		full := base
 		full.Pre = []pwPre{pre(3, 3, st, "secondary")}
+		big := zeroIdle(base)
+		big.Cap, big.Batch, big.Slots = 4, 1, 1
+		big.Pre = []pwPre{pre(4, 4, st, "secondary")}
+		big = withStored(big, "z")
 		n := st.name
 		out = append(out,
 			// assign faults while two requests wait
@@ -93,6 +97,8 @@ func c07Scenarios(thorough bool) []pwScenario {
 			// cancellation combined with a fault
 			pwScenario{Name: "F4-cancel+fault/" + n, Cfg: one, Threads: [][]pwOp{ops("add:a"), ops("addce:b")}, Budget: [4]int{d, 0, f, 1}, Faults: true, Heal: 2, Steps: 4000},
 			pwScenario{Name: "F6-cancel-anywhere/" + n, Cfg: one, Threads: [][]pwOp{ops("addce:a")}, After: ops("add:b"), Budget: [4]int{d, 0, 0, 1}, Heal: 1, Steps: 4000},
+			// shrink by more addresses than one unassign call may carry
+			pwScenario{Name: "F7-shrink-beyond-batch/" + n, Cfg: big, Threads: [][]pwOp{ops("syncpool"), ops("add:a", "del:a")}, After: ops("syncpool"), Budget: [4]int{d, 0, f, 0}, Faults: true, Heal: 3, Steps: 4000},
 			// healthy: watermark band after churn
 			pwScenario{Name: "F5-healthy-churn/" + n, Cfg: one, Threads: [][]pwOp{ops("add:a", "add:b", "del:a"), ops("syncpool")}, Budget: [4]int{d + 1, 1, 0, 0}, Heal: 3, Steps: 4000},
 		)
